@@ -1,5 +1,6 @@
 import Proofs.FilePieceMain
 import Proofs.FilePieceRC
+import Proofs.FilePieceRC2
 import Proofs.FilePieceTokenize
 import Proofs.FilePieceNum
 import Proofs.FilePieceLineInput
@@ -301,6 +302,69 @@ theorem compressed_members (dec : List Byte → Option (List Byte × List Byte))
     (raw = [] ∧ ch = []) ∨ (∃ plain rest ch', dec raw = some (plain, rest) ∧ ch = plain :: ch' ∧
         decodeChain dec (f - 1) rest = some ch') :=
   decodeChain_flatten dec f raw ch h
+
+/-- **compressed_concat, concretely**: the readers of read_compressed.cc — `ReadFactory` with its `kMagicSize`
+read-ahead and magic detection, `Complete`, `Uncompressed`, `UncompressedWithHeader`, `StreamCompressed` with its
+16 KiB input buffer, the hand-over of left-over input to the reader of the next member and the forwarding of a
+`Read` that produced nothing — meet the same contract as the abstract `rcRead`, for every OS read-size pattern and
+every (progress-making) behaviour of the decoders: from a state that owes the chain `ch`, `Read(amount > 0)`
+succeeds, returns a prefix of `ch.flatten` of at most `amount` bytes, empty only if nothing is owed, and leaves a
+state owing the rest; opening a well-formed input (a chain of members, or plain bytes without a magic) gives a
+state owing exactly its decoded bytes.  The fuel `raw bytes + 1` is never exhausted, and neither error arises. -/
+theorem compressed_concat_concrete (C : Codecs) (hC : CodecsOK C) (os : Nat → Nat) (dorc : Nat → Nat → Nat → Nat → Nat × Nat) :
+    (∀ f s amount ch, Abs C s ch → 0 < amount → rcMeasure s ≤ f →
+      ∃ out s' ch', rcRead2 C os dorc f s amount = .ok (out, s') ∧ Abs C s' ch' ∧
+        out ++ ch'.flatten = ch.flatten ∧ out.length ≤ amount ∧ (out = [] ↔ ch.flatten = [])) ∧
+    (∀ raw ch, Members C raw ch → ∃ s, rcOpen C raw = .ok s ∧ Abs C s ch) ∧
+    (∀ raw, raw ≠ [] → C.magic (raw.take kMagicSize) = false → ∃ s, rcOpen C raw = .ok s ∧ Abs C s [raw]) :=
+  ⟨rcRead2_contract C hC os dorc, fun raw ch h => (rcOpen_abs C hC raw).1 ch h, fun raw h1 h2 => (rcOpen_abs C hC raw).2 h1 h2⟩
+
+/-- a toy codec for non-vacuity: a member is six bytes 200, a length byte n, and n payload bytes -/
+def toyCodecs : Codecs where
+  member := fun raw => match raw with
+    | 200 :: 200 :: 200 :: 200 :: 200 :: 200 :: n :: rest => if n ≤ rest.length then some (7 + n, rest.take n) else none
+    | _ => none
+  magic := fun h => h.head? == some 200
+
+theorem toyCodecs_ok : CodecsOK toyCodecs where
+  member_len := by
+    intro raw len plain h
+    simp only [toyCodecs] at h
+    split at h
+    · rename_i n rest
+      by_cases hle : n ≤ rest.length
+      · rw [if_pos hle] at h
+        simp only [Option.some.injEq, Prod.mk.injEq] at h
+        obtain ⟨h1, _⟩ := h
+        subst h1
+        have hle' : @LE.le Nat _ n rest.length := hle
+        simp only [kMagicSize, List.length_cons]; omega
+      · rw [if_neg hle] at h; cases h
+    · cases h
+  member_magic := by
+    intro raw len plain k h hk
+    simp only [toyCodecs] at h ⊢
+    split at h
+    · cases k with
+      | zero => simp [kMagicSize] at hk
+      | succ k => simp
+    · cases h
+
+/-- `k` calls of `Read(5)` -/
+def toyReadN (os : Nat → Nat) (dorc : Nat → Nat → Nat → Nat → Nat × Nat) : Nat → RcSt → List Byte
+  | 0, _ => []
+  | k + 1, s =>
+    match rcRead2 toyCodecs os dorc 40 s 5 with
+    | .ok (out, s') => out ++ toyReadN os dorc k s'
+    | .error _ => [0]
+
+/-- three toy members ("ab", "", "c") read through the concrete readers, once with 1-byte decoder steps and once
+with greedy ones: the member boundaries, the empty member and the left-over hand-over are exercised -/
+example :
+    (match rcOpen toyCodecs [200, 200, 200, 200, 200, 200, 2, 97, 98, 200, 200, 200, 200, 200, 200, 0,
+                             200, 200, 200, 200, 200, 200, 1, 99] with
+     | .ok s => (toyReadN (fun _ => 3) (fun _ _ _ _ => (1, 1)) 6 s, toyReadN (fun _ => 3) (fun _ _ _ _ => (100, 100)) 6 s)
+     | .error _ => ([0], [0])) = ([97, 98, 99], [97, 98, 99]) := by decide
 
 /-! ## tokenizers -/
 
